@@ -201,5 +201,6 @@ def run(ctx):
     rule_sort_matches(ctx)
     rule_sealing(ctx)
     c01.rule_judgments(ctx)
+    c01.rule_expected_type(ctx)
     ctx.assume("completeness, the exact diagnostic kind, inference and expected-type preparation are NOT decided")
     return {}
